@@ -65,6 +65,8 @@ type Profile struct {
 	// Avoid maps generator avoidance switches (turned on by open known findings) to the
 	// finding id; avoided draws are counted in Schema.Avoided.
 	Avoid map[string]string
+	// Stratified selects each message's codec feature and variant by sequence number instead of drawing it.
+	Stratified bool
 }
 
 // avoidQuiet tests a switch without counting an avoided draw.
@@ -114,6 +116,10 @@ var (
 
 // gen holds generation state for one schema.
 type gen struct {
+	stratum int // schema index, drives stratified feature choice
+	msgSeq  int
+	variant int // stratified variant index of the current message (-1 = draw)
+
 	t   *rapid.T
 	p   *Profile
 	s   *Schema
@@ -147,7 +153,12 @@ func (g *gen) tagf(format string, a ...any) { g.tag[fmt.Sprintf(format, a...)] =
 // Generate draws one schema. id must be unique within a batch.
 func Generate(t *rapid.T, p *Profile, id string) *Schema {
 	g := &gen{t: t, p: p, tag: map[string]bool{}, enumDefs: map[string]*Enum{}, msgDefs: map[string]*Message{},
-		feature: map[string]string{}, usedShort: map[string]bool{}, firstSeg: map[string]bool{}}
+		feature: map[string]string{}, usedShort: map[string]bool{}, firstSeg: map[string]bool{}, variant: -1}
+	for _, r := range id {
+		if r >= '0' && r <= '9' {
+			g.stratum = g.stratum*10 + int(r-'0')
+		}
+	}
 	pkgTail := pick(g, []string{"shop.v1", "api", "core.v2", "svc"}, "pkgtail")
 	goPkg := pick(g, []string{"shoppb", "api", "corev2", "svc"}, "gopkg")
 	// unique per id so several schemas link into one binary
@@ -594,7 +605,16 @@ func (g *gen) annotate(m *Message, fq string, c *fieldCtx) {
 		}
 	}
 	primary := ""
-	if len(enabled) > 0 && !g.oneIn(4, "noprimary") {
+	g.variant = -1
+	if p.Stratified && len(enabled) > 0 {
+		// stratified: the sequence number of the message (schema index, message index) selects the
+		// feature and its variant, so that a batch covers every (feature, variant) pair evenly instead
+		// of leaving rare pairs to chance; everything else about the message is still drawn
+		seq := g.stratum*7 + g.msgSeq
+		g.msgSeq++
+		primary = enabled[seq%len(enabled)]
+		g.variant = seq / len(enabled)
+	} else if len(enabled) > 0 && !g.oneIn(4, "noprimary") {
 		primary = pick(g, enabled, "primary")
 	}
 	want := func(f string) bool {
@@ -638,7 +658,7 @@ func (g *gen) annotate(m *Message, fq string, c *fieldCtx) {
 			card = Singular
 		}
 		f := addField(k, "", card)
-		f.EnsureAnn().Int64Encoding = int32(pick(g, []int{2, 2, 2, 1}, "i64enc"))
+		f.EnsureAnn().Int64Encoding = int32(g.variantOf([]int{2, 2, 2, 1}, "i64enc"))
 		if f.Ann.Int64Encoding == 2 {
 			mark("int64")
 			g.tagf("int64:%s:%s", k, card)
@@ -658,7 +678,7 @@ func (g *gen) annotate(m *Message, fq string, c *fieldCtx) {
 	if can("empty") && want("empty") {
 		ref := g.emptyCapableMessage()
 		f := addField(KMessage, ref, Singular)
-		f.EnsureAnn().EmptyBehavior = int32(g.intn(1, 3, "emptyb"))
+		f.EnsureAnn().EmptyBehavior = int32(g.variantOf([]int{1, 2, 3}, "emptyb"))
 		if f.Ann.EmptyBehavior == 2 && p.ContractStrict && g.avoid("ts_empty_behavior_null_not_declared") {
 			f.Ann.EmptyBehavior = 3
 		}
@@ -674,7 +694,7 @@ func (g *gen) annotate(m *Message, fq string, c *fieldCtx) {
 			card = Singular
 		}
 		f := addField(KTimestamp, "", card)
-		f.EnsureAnn().TimestampFormat = int32(g.intn(1, 4, "tsfmt"))
+		f.EnsureAnn().TimestampFormat = int32(g.variantOf([]int{1, 2, 3, 4}, "tsfmt"))
 		if f.Ann.TimestampFormat != 1 {
 			mark("timestamp")
 		}
@@ -689,7 +709,7 @@ func (g *gen) annotate(m *Message, fq string, c *fieldCtx) {
 			card = Singular
 		}
 		f := addField(KBytes, "", card)
-		f.EnsureAnn().BytesEncoding = int32(g.intn(1, 5, "bytesenc"))
+		f.EnsureAnn().BytesEncoding = int32(g.variantOf([]int{1, 2, 3, 4, 5}, "bytesenc"))
 		if f.Ann.BytesEncoding != 1 {
 			mark("bytes")
 		}
@@ -735,7 +755,7 @@ func (g *gen) annotate(m *Message, fq string, c *fieldCtx) {
 		mark("flatten")
 	}
 	if (can("oneof_disc") || can("oneof_flat")) && len(m.Oneofs) == 0 && want("oneof") && !(p.ContractStrict && g.avoid("oneof_disc_openapi_schema")) {
-		flat := can("oneof_flat") && (!can("oneof_disc") || g.bool("oneofflat"))
+		flat := can("oneof_flat") && (!can("oneof_disc") || g.variantOf([]int{0, 1}, "oneofflat") == 1)
 		if !flat && p.ContractStrict && g.avoid("ts_oneof_disc_nested_under_oneof_name") {
 			if !can("oneof_flat") {
 				return
@@ -758,6 +778,14 @@ func (g *gen) annotate(m *Message, fq string, c *fieldCtx) {
 			mark("oneof_disc")
 		}
 	}
+}
+
+// variantOf picks an annotation variant: by the stratified index when the profile asks for it, else drawn.
+func (g *gen) variantOf(vals []int, label string) int {
+	if g.variant >= 0 {
+		return vals[g.variant%len(vals)]
+	}
+	return pick(g, vals, label)
 }
 
 func is64(k Kind) bool {
